@@ -73,13 +73,37 @@ func Ints(b []byte) []int {
 	return o
 }
 
+// Bytes turns a generated octet list into the slice a driver hands to the library.  Two out of three values (chosen by
+// the contents, so that a case behaves the same in a fresh confirming process) are VIEWS of a larger array with non-zero
+// octets behind them - the shape of a PDU taken out of a receive buffer; the others have no spare capacity at all.
+// No property mentions capacity: results must not depend on what lies behind len.  VERIF_VIEW=0 switches the views off.
 func Bytes(a []int) []byte {
-	o := make([]byte, len(a))
-	for i, x := range a {
-		o[i] = byte(x)
+	h := len(a)
+	for _, x := range a {
+		h = h*31 + x
 	}
-	return o
+	if viewsOff || h%3 == 0 {
+		o := make([]byte, len(a))
+		for i, x := range a {
+			o[i] = byte(x)
+		}
+		return o
+	}
+	const behind = 24
+	full := make([]byte, len(a)+behind)
+	for i, x := range a {
+		full[i] = byte(x)
+	}
+	for i := len(a); i < len(full); i++ {
+		full[i] = byte(0xA5 ^ (i * 29))
+		if full[i] == 0 {
+			full[i] = 0x5A
+		}
+	}
+	return full[:len(a)]
 }
+
+var viewsOff = os.Getenv("VERIF_VIEW") == "0"
 
 // Runes gives text as code points so that TLC never needs string surgery.
 func Runes(s string) []int {
